@@ -405,6 +405,9 @@ func Specs() map[string]*PropSpec {
 	deep("C12", "three 32-byte accounts sharing their first 20 bytes", dk("VerifC12_Transfer", "accounts", "3", "longaddr", "2"))
 	deep("C02", "creation programs of 5 operations", sd("VerifC05_StateDB", "ops", "5", "kinds", "tnf", "addrs", "2", "amts", "1"))
 	deep("C05", "creation programs of 5 operations", sd("VerifC05_StateDB", "ops", "5", "kinds", "tnf", "addrs", "2", "amts", "1"))
+	deep("C09", "period lists of length 6 (read / monotone); message validation with 3 lockup and 3 vesting periods; liquid-vesting split of 5 periods (1 denomination) and 3 periods (2 denominations)",
+		vt("VerifC09_Read", "n", "6"), vt("VerifC09_Mono", "n", "6"), vt("VerifC09_MessagePeriods", "lock", "3", "vest", "3"),
+		lt("VerifC11_Split", "n", "5"), lt("VerifC11_Split", "n", "3", "denoms", "2"))
 	deep("C19", "ucdao ledger over 3 accounts x 3 denominations", er("x/ucdao/keeper", "VerifC19_Ucdao", "accounts", "3", "denoms", "3"))
 	return m
 }
